@@ -68,9 +68,33 @@ Lemma run_plan_fits o n :
 Proof.
   change (filter is_fit (run_plan o n) = map AFitFile (seq 0 n)).
   unfold run_plan. destruct (norm_refine _ _) as [num rounds].
+  assert (Ht : filter is_fit ((if ro_save_tree o then [ASaveTree] else []) ++ [ASave]) = [])
+    by (destruct (ro_save_tree o); reflexivity).
   destruct (negb (ro_recluster_rounds o =? 0) || negb (rounds =? 0)).
   - cbn [app]. cbn [filter is_fit]. rewrite !filter_app, filter_fit_map.
     cbn [filter is_fit]. rewrite !filter_app, !filter_fit_repeat by reflexivity.
-    cbn. now rewrite app_nil_r.
-  - cbn [app]. cbn [filter is_fit]. rewrite !filter_app, filter_fit_map. cbn. now rewrite app_nil_r.
+    rewrite <- filter_app, Ht. cbn. now rewrite app_nil_r.
+  - cbn [app]. cbn [filter is_fit]. rewrite filter_app, filter_fit_map.
+    change (filter is_fit ([] ++ (if ro_save_tree o then [ASaveTree] else []) ++ [ASave]))
+      with (filter is_fit ((if ro_save_tree o then [ASaveTree] else []) ++ [ASave])).
+    rewrite Ht. now rewrite app_nil_r.
+Qed.
+
+(* the tree, when requested, is saved exactly once, after every call that changes the estimator
+   and right before the results are read out: the saved tree is the final tree *)
+Definition is_out (a : api_call) : bool := match a with ASaveTree | ASave => true | _ => false end.
+Lemma run_plan_tree_last o n :
+  exists pre, Forall (fun a => is_out a = false) pre /\
+    run_plan o n = pre ++ (if ro_save_tree o then [ASaveTree; ASave] else [ASave]).
+Proof.
+  unfold run_plan. destruct (norm_refine _ _) as [num rounds].
+  set (mid := if negb (ro_recluster_rounds o =? 0) || negb (rounds =? 0) then _ else _).
+  exists ([ACtor (ro_merge o) (ro_tol o) (ro_thr o) (ro_bf o)] ++ map AFitFile (seq 0 n) ++ mid).
+  split.
+  - apply Forall_app. split; [repeat constructor|]. apply Forall_app. split.
+    + apply Forall_forall. intros a Ha. apply in_map_iff in Ha. destruct Ha as (k & <- & _). reflexivity.
+    + subst mid. destruct (negb (ro_recluster_rounds o =? 0) || negb (rounds =? 0)); [|constructor].
+      apply Forall_app. split; [repeat constructor|]. apply Forall_app.
+      split; apply Forall_forall; intros a Ha; apply repeat_spec in Ha; subst a; reflexivity.
+  - rewrite <- !app_assoc. destruct (ro_save_tree o); reflexivity.
 Qed.
